@@ -58,14 +58,29 @@ class RandomStyle(Style):
         return False
 
     def trailing(self, where):
+        """An element no component of the enclosing SEQUENCE recognises: any tag number (in particular the numbers
+        of defined components) in the APPLICATION / PRIVATE classes, context-specific numbers above every defined
+        one, and universal types that no defined optional component at that place could be."""
         if self.rng.random() < self.p[3]:
             self.used.add("trailing:" + where)
-            r = self.rng.random()
-            if r < 0.4:
-                return ber.tlv(P, False, self.rng.choice([0, 5, 31, 200]), bytes(self.rng.getrandbits(8) for _ in range(self.rng.randint(0, 5))))
-            if r < 0.7:
-                return ber.tlv(U, False, 5, b"")  # NULL
-            return ber.tlv(C, True, self.rng.choice([20, 25, 99]), ber.tlv(U, False, 4, b"x"))
+            rng = self.rng
+            r = rng.random()
+            payload = bytes(rng.getrandbits(8) for _ in range(rng.randint(0, 5)))
+            inner = ber.tlv(U, False, 4, b"x") if rng.random() < 0.7 else b""
+            if r < 0.45:
+                cls = rng.choice([A, P])
+                num = rng.choice([0, 1, 2, 3, 4, 5, 7, 9, 10, 11, 12, 30, 31, 200, 1024])
+                if rng.random() < 0.3:
+                    return ber.tlv(cls, True, num, inner)
+                return ber.tlv(cls, False, num, payload)
+            if r < 0.65:
+                nums = [5] if where in ("control", "sasl") else [5, 5, 2, 10, 12]
+                num = rng.choice(nums)
+                return ber.tlv(U, False, num, b"" if num == 5 else (payload or b"\x00"))
+            num = rng.choice([12, 20, 25, 99, 1024])
+            if rng.random() < 0.5:
+                return ber.tlv(C, True, num, inner)
+            return ber.tlv(C, False, num, payload)
         return b""
 
 
